@@ -64,6 +64,20 @@ THEOREMS = [
     'C04.relToCart_reframe', 'C04.cartToRel_reframe', 'C04.newVects_reframe', 'C04.kept_reframe', 'C04.superBox_reframe',
     'C04.replicaPos_reframe', 'C04.supersizeAtoms_reframe', 'C04.wrapAtom_reframe', 'C04.rotateIdentity_reframe',
     'C04.rotateRaw_reframe', 'C04.rotate_reframe',
+    # round 6 (Proofs/C04_Source.lean): the SOURCE TIE. Each generated definition of Atomman/Generated/SupercellSource.lean
+    # (regenerated with `ast` from the current System.py / Box.py / miller.py / the two conversion styles on every check) is
+    # the hand model the theorems above are about
+    'C04.gen_resolveInt_eq_model', 'C04.gen_resolvePair_eq_model', 'C04.gen_resolveOther_eq_model',
+    'C04.gen_replicaRel_eq_model', 'C04.gen_superBox_eq_model', 'C04.gen_defaultTol_eq_model', 'C04.gen_defaultTol_small',
+    'C04.gen_rotate_glue_eq_model', 'C04.gen_shortcut_eq_model', 'C04.gen_shortcutPbc_eq_model', 'C04.gen_newVects_eq_model',
+    'C04.gen_newVolume_eq_model', 'C04.gen_corners_eq_model', 'C04.gen_rotateSizes_eq_model', 'C04.gen_orel_eq_model',
+    'C04.gen_shift_eq_model', 'C04.gen_roundFaces_eq_model', 'C04.gen_inside_eq_model', 'C04.gen_hex4to3_eq_model',
+    'C04.gen_isCubic_eq_model', 'C04.gen_isHexagonal_eq_model', 'C04.gen_isTetragonal_eq_model',
+    'C04.gen_isRhombohedral_eq_model', 'C04.gen_isOrthorhombic_eq_model', 'C04.gen_isMonoclinic_eq_model',
+    'C04.gen_isTriclinic_eq_model', 'C04.gen_identifyFamily_eq_model', 'C04.gen_p2cTable_eq_model',
+    'C04.gen_c2pTable_eq_model', 'C04.gen_settingSites_eq_model', 'C04.gen_settingFamilies_eq_model',
+    'C04.gen_multip_eq_model', 'C04.gen_c2pDefaults_eq_model', 'C04.gen_resolveCalls_eq_model',
+    'C04.gen_resolveSetting_eq_model', 'C04.gen_familyGate_eq_model', 'C04.gen_pins_eq_model',
 ]
 PARTIAL = {
     'normalize_after_rotate': 'the final normalize step (rebuild the box LAMMPS-compatible, flip a left-handed cell, '
@@ -187,6 +201,858 @@ MANIFEST = {
             'checked on the implementation by the oracle.',
     'technique': 'Lean 4 theorems over a hand-written model + differential correspondence + exact lattice oracle',
 }
+
+
+# ----------------------------------------------------------------------------------------------
+# translator: the source of supersize / rotate / the conversions -> lean/Atomman/Generated/SupercellSource.lean
+# ----------------------------------------------------------------------------------------------
+GENERATED = ['SupercellSource']
+
+# normalised-AST statement pins: sha256 of ast.dump of the statements (first 16 hex digits) for numpy array bookkeeping
+# without a Lean counterpart; the expected values live in Proofs/C04_Source.lean (gen_pins_eq_model).
+
+
+def _te(msg):
+    from ..translate import TranslationError
+    raise TranslationError('C04 source tie: ' + msg)
+
+
+def _find_fn(tree, name, cls=None):
+    import ast
+    scope = tree
+    if cls is not None:
+        cl = [n for n in tree.body if isinstance(n, ast.ClassDef) and n.name == cls]
+        if len(cl) != 1:
+            _te(f'class {cls} not found exactly once')
+        scope = cl[0]
+    fns = [n for n in scope.body if isinstance(n, ast.FunctionDef) and n.name == name]
+    if len(fns) != 1:
+        _te(f'function {name} not found exactly once')
+    return fns[0]
+
+
+def _stmts(fn):
+    from ..translate import strip_doc
+    return list(strip_doc(fn.body))
+
+
+def _u(node):
+    import ast
+    return ast.unparse(node)
+
+
+def _pin_hash(nodes):
+    import ast
+    import hashlib
+    txt = '\n'.join(ast.dump(n) for n in nodes)
+    return hashlib.sha256(txt.encode()).hexdigest()[:16]
+
+
+def _lean_str(s):
+    return '"' + s.replace('\\', '\\\\').replace('"', '\\"') + '"'
+
+
+def _frac_of_const(node):
+    """exact value of a numeric literal as written (1e-05 -> 1/100000)."""
+    import ast
+    neg = False
+    if isinstance(node, ast.UnaryOp) and isinstance(node.op, ast.USub):
+        neg = True
+        node = node.operand
+    if not (isinstance(node, ast.Constant) and isinstance(node.value, (int, float)) and not isinstance(node.value, bool)):
+        _te(f'numeric literal expected: {_u(node)}')
+    f = Fraction(repr(node.value)) if isinstance(node.value, float) else Fraction(node.value)
+    return -f if neg else f
+
+
+class _Ex:
+    """restricted expression -> Lean.  `env`: unparse text of a sub-expression -> (lean text, type) with type in
+    'I' (Int), 'K' (scalar), 'V' (3-vector); literals are integers (`((n : Int) : K)` in scalar context)."""
+
+    def __init__(self, env, scalar='K'):
+        self.env = env
+        self.scalar = scalar
+
+    def lit(self, v):
+        if isinstance(v, float):
+            if v != int(v):
+                _te(f'non-integer literal {v!r} in a translated formula')
+            v = int(v)
+        if self.scalar == 'I':
+            return (f'({v})' if v < 0 else str(v)), 'I'
+        return f'(({v} : Int) : K)', 'K'
+
+    def tr(self, n):
+        import ast
+        key = _u(n)
+        if key in self.env:
+            return self.env[key]
+        if isinstance(n, ast.Constant) and isinstance(n.value, (int, float)) and not isinstance(n.value, bool):
+            return self.lit(n.value)
+        if isinstance(n, ast.UnaryOp) and isinstance(n.op, ast.USub):
+            a, t = self.tr(n.operand)
+            return f'(-{a})', t
+        if isinstance(n, ast.BinOp):
+            a, ta = self.tr(n.left)
+            b, tb = self.tr(n.right)
+            if isinstance(n.op, (ast.Add, ast.Sub)):
+                if ta != tb:
+                    _te(f'cannot add {ta} and {tb}: {key}')
+                return f'({a} {"+" if isinstance(n.op, ast.Add) else "-"} {b})', ta
+            if isinstance(n.op, ast.Mult):
+                if ta == 'V' and tb != 'V':
+                    return f'(V3.smul {b} {a})', 'V'
+                if tb == 'V' and ta != 'V':
+                    return f'(V3.smul {a} {b})', 'V'
+                if ta == tb != 'V':
+                    return f'({a} * {b})', ta
+            if isinstance(n.op, ast.Div) and ta == tb == 'K':
+                return f'({a} / {b})', 'K'
+        _te(f'expression outside the translated subset: {key}')
+
+    def cond(self, n):
+        """comparison / and / or / not -> Lean Prop text (normalised to < and ≤)."""
+        import ast
+        if isinstance(n, ast.Compare) and len(n.ops) == 1:
+            a, ta = self.tr(n.left)
+            b, tb = self.tr(n.comparators[0])
+            if ta != tb or ta == 'V':
+                _te(f'comparison of {ta} with {tb}: {_u(n)}')
+            op = n.ops[0]
+            if isinstance(op, ast.Gt):
+                return f'{b} < {a}'
+            if isinstance(op, ast.GtE):
+                return f'{b} ≤ {a}'
+            if isinstance(op, ast.Lt):
+                return f'{a} < {b}'
+            if isinstance(op, ast.LtE):
+                return f'{a} ≤ {b}'
+            if isinstance(op, ast.Eq):
+                return f'{a} = {b}'
+            if isinstance(op, ast.NotEq):
+                return f'{a} ≠ {b}'
+        if isinstance(n, ast.BoolOp):
+            j = ' ∧ ' if isinstance(n.op, ast.And) else ' ∨ '
+            return '(' + j.join(self.cond(v) for v in n.values) + ')'
+        if isinstance(n, ast.UnaryOp) and isinstance(n.op, ast.Not):
+            return f'¬ ({self.cond(n.operand)})'
+        _te(f'condition outside the translated subset: {_u(n)}')
+
+
+_EXC = {'ValueError': 'value', 'TypeError': 'type'}
+
+
+def _raised(st):
+    """error class ('value' / 'type') of a `raise X(...)` statement."""
+    import ast
+    if isinstance(st, ast.Raise) and isinstance(st.exc, ast.Call) and isinstance(st.exc.func, ast.Name) \
+            and st.exc.func.id in _EXC:
+        return _EXC[st.exc.func.id]
+    _te(f'raise of ValueError / TypeError expected: {_u(st)[:80]}')
+
+
+def _is_call(n, dotted, nargs=None):
+    import ast
+    return isinstance(n, ast.Call) and _u(n.func) == dotted and (nargs is None or len(n.args) == nargs)
+
+
+def _kw(call, allowed=None):
+    d = {}
+    for k in call.keywords:
+        if k.arg is None:
+            _te(f'**kwargs in {_u(call)}')
+        d[k.arg] = k.value
+    if allowed is not None and set(d) - set(allowed):
+        _te(f'unexpected keyword in {_u(call)}')
+    return d
+
+
+def _tr_supersize(tree, out, pins):
+    import ast
+    fn = _find_fn(tree, 'supersize', 'System')
+    if [a.arg for a in fn.args.args] != ['self', 'a_size', 'b_size', 'c_size'] or fn.args.defaults:
+        _te('supersize signature')
+    st = _stmts(fn)
+    head = [_u(s) for s in st[:5]]
+    if head != ['sizes = [a_size, b_size, c_size]', 'mults = np.array([0, 0, 0], dtype=int)', 'vects = self.box.vects',
+                'origin = self.box.origin', "spos = self.atoms_prop('pos', scale=True)"]:
+        _te('supersize: parameter extraction no longer has the translated shape: ' + ' | '.join(head))
+    loop = st[5]
+    if not (isinstance(loop, ast.For) and _u(loop.target) == 'i' and _u(loop.iter) == 'range(3)' and not loop.orelse):
+        _te('supersize: axis loop')
+    body = loop.body
+    if len(body) != 6:
+        _te(f'supersize: axis loop has {len(body)} statements, 6 expected')
+    # --- the int / tuple / other dispatch
+    d = body[0]
+    if not (isinstance(d, ast.If) and _u(d.test) == 'isinstance(sizes[i], (int, np.integer))'):
+        _te('supersize: integer branch test')
+    exI = _Ex({'sizes[i]': ('n', 'I')}, scalar='I')
+
+    def int_branch(stmts):
+        if len(stmts) != 1:
+            _te('supersize: integer branch is not a single statement')
+        s = stmts[0]
+        if isinstance(s, ast.Raise):
+            return f'.error "{_raised(s)}"'
+        if isinstance(s, ast.Assign) and _u(s.targets[0]) == 'sizes[i]' and isinstance(s.value, ast.Tuple) \
+                and len(s.value.elts) == 2:
+            a, _ = exI.tr(s.value.elts[0])
+            b, _ = exI.tr(s.value.elts[1])
+            return f'.ok ⟨{a}, {b}⟩'
+        if isinstance(s, ast.If):
+            return f'if {exI.cond(s.test)} then {int_branch(s.body)} else {int_branch(s.orelse)}'
+        _te(f'supersize: integer branch statement {_u(s)[:60]}')
+    out.append('/-- the integer branch of the multiplier check (`isinstance(sizes[i], (int, np.integer))`). -/')
+    out.append(f'def genResolveInt (n : Int) : Except String Size :=\n  {int_branch(d.body)}')
+    if len(d.orelse) != 1 or not (isinstance(d.orelse[0], ast.If) and _u(d.orelse[0].test) == 'isinstance(sizes[i], tuple)'):
+        _te('supersize: tuple branch test')
+    t = d.orelse[0]
+    other = _raised(t.orelse[0]) if len(t.orelse) == 1 else _te('supersize: else branch')
+    if not (len(t.body) == 1 and isinstance(t.body[0], ast.Try) and len(t.body[0].handlers) == 1
+            and t.body[0].handlers[0].type is None and len(t.body[0].handlers[0].body) == 1
+            and not t.body[0].orelse and not t.body[0].finalbody):
+        _te('supersize: tuple branch try/except')
+    tuple_err = _raised(t.body[0].handlers[0].body[0])
+    exP = _Ex({'sizes[i][0]': ('lo', 'I'), 'sizes[i][1]': ('hi', 'I'), 'mults[i]': ('(hi - lo)', 'I')}, scalar='I')
+    conds, shape = [], []
+    for a in t.body[0].body:
+        if not isinstance(a, ast.Assert):
+            _te('supersize: tuple branch holds something else than asserts')
+        txt = _u(a.test)
+        if txt == 'len(sizes[i]) == 2' or txt in ('isinstance(sizes[i][0], (int, np.integer))',
+                                                    'isinstance(sizes[i][1], (int, np.integer))'):
+            shape.append(txt)
+        else:
+            conds.append(exP.cond(a.test))
+    if sorted(shape) != sorted(['len(sizes[i]) == 2', 'isinstance(sizes[i][0], (int, np.integer))',
+                                'isinstance(sizes[i][1], (int, np.integer))']):
+        _te('supersize: tuple length / entry type asserts')
+    if _u(body[1]) != 'mults[i] = sizes[i][1] - sizes[i][0]':
+        _te('supersize: full multiplier ' + _u(body[1]))
+    z = body[2]
+    if not (isinstance(z, ast.If) and not z.orelse and len(z.body) == 1):
+        _te('supersize: zero multiplier test')
+    zero_err = _raised(z.body[0])
+    out.append('/-- the tuple branch: the asserts on the two entries (a failing one is re-raised as the `except` clause says),\n'
+               '    then `mults[i] = sizes[i][1] - sizes[i][0]` and the zero test. -/')
+    out.append(f'def genResolvePair (lo hi : Int) : Except String Size :=\n  if {" ∧ ".join(conds)} then '
+               f'(if {exP.cond(z.test)} then .error "{zero_err}" else .ok ⟨lo, hi⟩) else .error "{tuple_err}"')
+    out.append(f'/-- neither an integer nor a tuple. -/\ndef genResolveOther : Except String Size := .error "{other}"')
+    # --- the three updates of one axis, in statement order, on a symbolic state
+    state = {'spos[:, i]': ('s', 'K'), 'origin': ('origin', 'V'), 'vects[i]': ('vi', 'V')}
+    for s in body[3:]:
+        if not (isinstance(s, ast.AugAssign) and _u(s.target) in state):
+            _te(f'supersize: axis update {_u(s)}')
+        env = dict(state)
+        env.update({'mults[i]': ('m', 'K'), 'sizes[i][0]': ('lo', 'K')})
+        ex = _Ex(env)
+        opn = {ast.Add: ast.Add(), ast.Sub: ast.Sub(), ast.Mult: ast.Mult(), ast.Div: ast.Div()}.get(type(s.op))
+        if opn is None:
+            _te(f'supersize: axis update operator {_u(s)}')
+        state[_u(s.target)] = ex.tr(ast.BinOp(left=s.target, op=opn, right=s.value))
+    out.append('section\nvariable {K : Type} [Add K] [Sub K] [Mul K] [Div K] [IntCast K]')
+    out.append('/-- one pass of the axis loop (`spos[:,i] /= …; origin += …; vects[i] *= …` in the order of the source):\n'
+               '    new origin, new cell vector, new relative coordinate. -/')
+    out.append(f'def genAxisOrigin (origin vi : V3 K) (s lo m : K) : V3 K := {state["origin"][0]}')
+    out.append(f'def genAxisVect (origin vi : V3 K) (s lo m : K) : V3 K := {state["vects[i]"][0]}')
+    out.append(f'def genAxisSpos (origin vi : V3 K) (s lo m : K) : K := {state["spos[:, i]"][0]}')
+    if _u(st[6]) != 'box = Box(vects=vects, origin=origin)':
+        _te('supersize: new Box ' + _u(st[6]))
+    out.append('/-- `Box(vects=vects, origin=origin)` after the loop over the three axes. -/\n'
+               'def genSuperBox (b : Box K) (sa sb sc : Size) : Box K :=\n'
+               '  let o0 := genAxisOrigin b.origin b.vects.r0 (sa.lo : K) (sa.lo : K) (sa.mult : K)\n'
+               '  let o1 := genAxisOrigin o0 b.vects.r1 (sb.lo : K) (sb.lo : K) (sb.mult : K)\n'
+               '  let o2 := genAxisOrigin o1 b.vects.r2 (sc.lo : K) (sc.lo : K) (sc.mult : K)\n'
+               '  { origin := o2,\n'
+               '    vects := ⟨genAxisVect b.origin b.vects.r0 (sa.lo : K) (sa.lo : K) (sa.mult : K),\n'
+               '              genAxisVect o0 b.vects.r1 (sb.lo : K) (sb.lo : K) (sb.mult : K),\n'
+               '              genAxisVect o1 b.vects.r2 (sc.lo : K) (sc.lo : K) (sc.mult : K)⟩ }')
+    # --- offsets
+    rest = st[7:]
+    texts = [_u(s) for s in rest]
+    if texts[0] != 'natoms = self.natoms * mults[0] * mults[1] * mults[2]' or texts[1] != 'atoms = Atoms(natoms=natoms)':
+        _te('supersize: natoms / Atoms')
+    if not isinstance(rest[2], ast.For):
+        _te('supersize: copy loop')
+    pins['supersize_copy_loop'] = _pin_hash([rest[2]])
+    ixyz = [k for k, s in enumerate(rest) if isinstance(s, ast.Assign) and _u(s.targets[0]) == 'xyz']
+    if len(ixyz) != 1:
+        _te('supersize: xyz')
+    k = ixyz[0]
+    pins['supersize_broadcast'] = _pin_hash(rest[3:k])
+    v = rest[k].value
+    if not (isinstance(v, ast.BinOp) and isinstance(v.op, ast.Mult) and _is_call(v.left, 'np.hstack', 1)
+            and _is_call(v.right, 'np.array', 1) and isinstance(v.right.args[0], ast.List) and len(v.right.args[0].elts) == 3):
+        _te('supersize: xyz formula')
+    hs = [_u(e) for e in v.left.args[0].elts]
+    if hs != ['x[:, np.newaxis]', 'y[:, np.newaxis]', 'z[:, np.newaxis]']:
+        _te('supersize: hstack order ' + str(hs))
+    ex = _Ex({'mults[0]': ('(sa.mult : K)', 'K'), 'mults[1]': ('(sb.mult : K)', 'K'), 'mults[2]': ('(sc.mult : K)', 'K')})
+    steps = [ex.tr(e)[0] for e in v.right.args[0].elts]
+    if texts[k + 1] != "atoms.view['pos'] = new_spos + xyz" or \
+            texts[k + 2] != 'return System(box=box, atoms=atoms, scale=True, symbols=self.symbols)' or len(rest) != k + 3:
+        _te('supersize: tail')
+    out.append('/-- relative position of replica `(r0, r1, r2)` in the multiplied cell: `new_spos + xyz` with\n'
+               '    `xyz = hstack(x, y, z) * array([…])` (`x` counts the replicas along `a`, … — statement pin `supersize_broadcast`). -/')
+    out.append('def genReplicaRel (sa sb sc : Size) (q : V3 K) (r0 r1 r2 : Nat) : V3 K :=\n'
+               f'  ⟨genAxisSpos q q q.x (sa.lo : K) (sa.mult : K) + ((r0 : Int) : K) * {steps[0]},\n'
+               f'   genAxisSpos q q q.y (sb.lo : K) (sb.mult : K) + ((r1 : Int) : K) * {steps[1]},\n'
+               f'   genAxisSpos q q q.z (sc.lo : K) (sc.mult : K) + ((r2 : Int) : K) * {steps[2]}⟩')
+    out.append('end')
+
+
+def _tr_rotate(tree, mtree, out, pins):
+    import ast
+    fn = _find_fn(tree, 'rotate', 'System')
+    if [a.arg for a in fn.args.args] != ['self', 'uvws', 'tol', 'return_transform'] or \
+            [_u(d) for d in fn.args.defaults] != ['None', 'False']:
+        _te('rotate signature / defaults')
+    st = _stmts(fn)
+    # --- default ladder
+    t0 = st[0]
+    if not (isinstance(t0, ast.If) and _u(t0.test) == 'tol is None' and len(t0.body) == 1 and isinstance(t0.body[0], ast.Assign)
+            and _u(t0.body[0].targets[0]) == 'tol' and isinstance(t0.body[0].value, ast.List)
+            and [_u(s) for s in t0.orelse] == ['tol = aslist(tol)']):
+        _te('rotate: tol default')
+    tols = [_frac_of_const(e) for e in t0.body[0].value.elts]
+    out.append('/-- the default tolerance ladder `tol` of `rotate` (numerator, denominator). -/')
+    out.append('def genDefaultTol : List (Nat × Nat) := [' + ', '.join(f'({f.numerator}, {f.denominator})' for f in tols) + ']')
+    if _u(st[1]) != 'uvws = np.asarray(uvws)':
+        _te('rotate: asarray')
+    h = st[2]
+    if not (isinstance(h, ast.If) and isinstance(h.test, ast.Compare) and _u(h.test.left) == 'uvws.shape'
+            and isinstance(h.test.ops[0], ast.Eq) and len(h.body) == 1 and isinstance(h.body[0], ast.If)
+            and _u(h.body[0].test) == 'self.box.ishexagonal()'
+            and [_u(s) for s in h.body[0].body] == ['uvws = miller.vector4to3(uvws)'] and not h.orelse):
+        _te('rotate: hexagonal branch')
+    hexerr = _raised(h.body[0].orelse[0])
+    s3 = st[3]
+    if not (isinstance(s3, ast.If) and isinstance(s3.test, ast.Compare) and _u(s3.test.left) == 'uvws.shape'
+            and isinstance(s3.test.ops[0], ast.NotEq) and len(s3.body) == 1 and not s3.orelse):
+        _te('rotate: shape test')
+    sh4 = ast.literal_eval(h.test.comparators[0])
+    sh3 = ast.literal_eval(s3.test.comparators[0])
+    out.append('/-- shapes: hexagonal 4-index input (converted by `miller.vector4to3` on hexagonal cells, otherwise refused), '
+               'the only other shape accepted. -/')
+    out.append(f'def genHexShape : Nat × Nat := ({sh4[0]}, {sh4[1]})\ndef genUvwShape : Nat × Nat := ({sh3[0]}, {sh3[1]})')
+    out.append(f'def genShapeErrors : List String := ["{hexerr}", "{_raised(s3.body[0])}"]')
+    # --- integer test
+    if _u(st[4]) != "int_uvws = np.asarray(np.rint(uvws), dtype='int64')":
+        _te('rotate: rint')
+    it = st[5]
+    if not (isinstance(it, ast.If) and _is_call(it.test, 'np.allclose') and [_u(s) for s in it.body] == ['uvws = int_uvws']
+            and len(it.orelse) == 1):
+        _te('rotate: integer test')
+    out.append('/-- `np.allclose(a, b, **kw)` of the integer test: positional arguments (the tolerance is `atol + rtol·|b|`, `b` the '
+               'SECOND one) and keywords (none: numpy\'s defaults 1e-5 / 1e-8). -/')
+    out.append('def genIntTestArgs : List String := [' + ', '.join(_lean_str(_u(a)) for a in it.test.args) + ']')
+    out.append('def genIntTestKw : List String := [' + ', '.join(_lean_str(k.arg or '**') for k in it.test.keywords) + ']')
+    out.append(f'def genIntTestError : String := "{_raised(it.orelse[0])}"')
+    # --- identity shortcut
+    sc = st[6]
+    if not (isinstance(sc, ast.If) and _u(sc.test) == "np.all(uvws == np.eye(3, dtype='int64'))"):
+        _te('rotate: identity shortcut test ' + _u(sc.test))
+    out.append('/-- `np.all(uvws == np.eye(3, dtype=\'int64\'))`. -/\ndef genIsShortcut (U : M3 Int) : Bool := decide (U = M3.one)')
+    scb = [_u(s) for s in sc.body]
+    if len(scb) != 3 or scb[0] != 'newsystem = deepcopy(self)':
+        _te('rotate: shortcut body')
+    bs = sc.body[1].value if isinstance(sc.body[1], ast.Expr) else None
+    if not (_is_call(bs, 'newsystem.box_set', 0)):
+        _te('rotate: shortcut box_set')
+    kw = _kw(bs)
+    if _u(kw.get('vects', ast.Constant(None))) != 'self.box.vects':
+        _te('rotate: shortcut cell')
+    out.append('/-- the shortcut re-expresses the copy\'s cell: keywords of `box_set` (no `origin`: reset to the Cartesian origin), '
+               '`scale`, then the flags. -/')
+    out.append('def genShortcutBoxSetKw : List String := [' + ', '.join(_lean_str(k) for k in sorted(kw)) + ']')
+    out.append(f'def genShortcutScale : Bool := {str(bool(ast.literal_eval(kw["scale"]))).lower() if "scale" in kw else "false"}')
+    pb = sc.body[2]
+    if not (isinstance(pb, ast.Assign) and _u(pb.targets[0]) == 'newsystem.pbc' and isinstance(pb.value, ast.Tuple)
+            and len(pb.value.elts) == 3):
+        _te('rotate: shortcut pbc')
+    fl = [bool(ast.literal_eval(e)) for e in pb.value.elts]
+    out.append('def genShortcutPbc : Pbc := ⟨' + ', '.join(str(f).lower() for f in fl) + '⟩')
+    # --- general path
+    g = sc.orelse
+    gt = [_u(s) for s in g]
+    if gt[0] != 'natoms = self.natoms' or gt[1] != 'volume = self.box.volume' or \
+            gt[2] != 'newvects = miller.vector_crystal_to_cartesian(uvws, box=self.box)':
+        _te('rotate: general path head')
+    vc = _stmts(_find_fn(mtree, 'vector_crystal_to_cartesian'))
+    if _u(vc[-1]) != 'return indices.dot(box.vects)':
+        _te('miller.vector_crystal_to_cartesian: ' + _u(vc[-1]))
+    out.append('section\nvariable {K : Type} [Add K] [Sub K] [Mul K] [Div K] [IntCast K] [Zero K] [One K] [LT K] [LE K]\n'
+               '  [DecidableLT K] [DecidableLE K]')
+    out.append('/-- `miller.vector_crystal_to_cartesian`: `indices.dot(box.vects)`. -/\n'
+               'def genNewVects (U : M3 Int) (vects : M3 K) : M3 K :=\n'
+               '  M3.mul (⟨U.r0.map (fun (i : Int) => (i : K)), U.r1.map (fun (i : Int) => (i : K)), U.r2.map (fun (i : Int) => (i : K))⟩ : M3 K) vects')
+    if gt[3] != 'newvolume = np.abs(newvects[0].dot(np.cross(newvects[1], newvects[2])))':
+        _te('rotate: newvolume ' + gt[3])
+    out.append('/-- `np.abs(newvects[0].dot(np.cross(newvects[1], newvects[2])))`. -/\n'
+               'def genNewVolume (nv : M3 K) : K := absK (V3.dot nv.r0 (V3.cross nv.r1 nv.r2))')
+    if gt[4] != 'newnatoms = int(round(newvolume / volume) * natoms)':
+        _te('rotate: newnatoms ' + gt[4])
+    out.append('/-- `int(round(newvolume / volume) * natoms)` (`rnd` = `round`). -/\n'
+               'def genNewNatoms (rnd : K → Int) (newvolume volume : K) (natoms : Nat) : Int := rnd (newvolume / volume) * (natoms : Int)')
+    z = g[5]
+    if not (isinstance(z, ast.If) and _u(z.test) == 'newnatoms == 0' and len(z.body) == 1 and not z.orelse):
+        _te('rotate: zero-volume refusal')
+    out.append(f'def genPlanarError : String := "{_raised(z.body[0])}"')
+    # corners
+    if gt[6] != "corners = np.empty((8, 3), dtype='int64')":
+        _te('rotate: corners array')
+    exU = _Ex({'uvws[0]': ('U.r0', 'V'), 'uvws[1]': ('U.r1', 'V'), 'uvws[2]': ('U.r2', 'V'),
+               'np.zeros(3)': ('(⟨0, 0, 0⟩ : V3 Int)', 'V')}, scalar='I')
+    cs = []
+    for k in range(8):
+        s = g[7 + k]
+        if not (isinstance(s, ast.Assign) and _u(s.targets[0]) == f'corners[{k}]'):
+            _te(f'rotate: corner {k}')
+        cs.append(exU.tr(s.value)[0])
+    out.append('/-- the eight corners of the new cell in index space. -/\ndef genCorners (U : M3 Int) : List (V3 Int) :=\n  ['
+               + ', '.join(cs) + ']')
+    # multipliers
+    names = []
+    comps = {0: 'x', 1: 'y', 2: 'z'}
+    sizes = {}
+    for k, nm in enumerate(['a_mults', 'b_mults', 'c_mults']):
+        s = g[15 + k]
+        if not (isinstance(s, ast.Assign) and isinstance(s.value, ast.Tuple) and len(s.value.elts) == 2):
+            _te('rotate: multipliers')
+        names.append(_u(s.targets[0]))
+        parts = []
+        for e in s.value.elts:
+            if not (isinstance(e, ast.BinOp) and isinstance(e.op, (ast.Add, ast.Sub)) and isinstance(e.left, ast.Call)
+                    and isinstance(e.left.func, ast.Attribute) and e.left.func.attr in ('min', 'max') and not e.left.args
+                    and isinstance(e.left.func.value, ast.Subscript) and _u(e.left.func.value.value) == 'corners'
+                    and isinstance(e.right, ast.Constant) and isinstance(e.right.value, int)):
+                _te('rotate: multiplier expression ' + _u(e))
+            sl = _u(e.left.func.value.slice).strip('()')
+            if not sl.startswith(':, ') or sl[3:] not in ('0', '1', '2'):
+                _te('rotate: multiplier column ' + sl)
+            col = comps[int(sl[3:])]
+            f = 'minOf' if e.left.func.attr == 'min' else 'maxOf'
+            parts.append(f'{f} (cs.map (·.{col})) {"+" if isinstance(e.op, ast.Add) else "-"} {e.right.value}')
+        sizes[names[-1]] = f'⟨{parts[0]}, {parts[1]}⟩'
+    call = g[18]
+    if not (isinstance(call, ast.Assign) and _u(call.targets[0]) == 'system2' and _is_call(call.value, 'self.supersize', 3)
+            and not call.value.keywords):
+        _te('rotate: supersize call')
+    args = [_u(a) for a in call.value.args]
+    if any(a not in sizes for a in args):
+        _te('rotate: supersize arguments ' + str(args))
+    out.append('/-- the bounding supercell: `(min - 1, max + 1)` of the corner columns, handed to `self.supersize` in this order. -/\n'
+               'def genRotateSizes (U : M3 Int) : Size × Size × Size :=\n  let cs := genCorners U\n  ('
+               + ',\n   '.join(sizes[a] for a in args) + ')')
+    # lattice translation
+    if gt[19] != 'orel = np.linalg.solve(self.box.vects.T, self.box.origin)' or \
+            gt[20] != 'system2.atoms.pos -= np.rint(orel).dot(self.box.vects)':
+        _te('rotate: lattice translation ' + gt[19] + ' | ' + gt[20])
+    out.append('/-- `np.linalg.solve(vects.T, origin)`: the `x` with `x·vects = origin`. -/\n'
+               'def genOrel (b : Box K) : V3 K := M3.vecMul b.origin (M3.inv b.vects)')
+    out.append('/-- `pos -= np.rint(orel).dot(vects)` (`rint` = `rintK fl`). -/\n'
+               'def genShift (fl : K → Int) (b : Box K) : V3 K :=\n'
+               '  M3.vecMul ⟨((rintK fl (genOrel b).x : Int) : K), ((rintK fl (genOrel b).y : Int) : K), '
+               '((rintK fl (genOrel b).z : Int) : K)⟩ b.vects')
+    bs = g[21].value if isinstance(g[21], ast.Expr) else None
+    if not _is_call(bs, 'system2.box_set', 0) or sorted(_kw(bs)) != ['scale', 'vects'] or \
+            _u(_kw(bs)['vects']) != 'newvects' or _u(_kw(bs)['scale']) != 'False':
+        _te('rotate: box_set of the supercell ' + gt[21])
+    if gt[22] != 'search_success = False':
+        _te('rotate: search flag')
+    lp = g[23]
+    if not (isinstance(lp, ast.For) and _u(lp.target) == 'atol' and _u(lp.iter) == 'tol' and not lp.orelse and len(lp.body) == 5):
+        _te('rotate: ladder loop')
+    lb = lp.body
+    if _u(lb[0]) != "spos = system2.atoms_prop('pos', scale=True)":
+        _te('rotate: ladder reads the scaled positions inside the loop: ' + _u(lb[0]))
+    rounds = []
+    for s in lb[1:3]:
+        if not (isinstance(s, ast.Assign) and isinstance(s.targets[0], ast.Subscript) and _u(s.targets[0].value) == 'spos'
+                and _is_call(s.targets[0].slice, 'np.isclose', 2) and _u(s.targets[0].slice.args[0]) == 'spos'):
+            _te('rotate: rounding statement ' + _u(s))
+        c = s.targets[0].slice
+        kw = _kw(c, ('rtol', 'atol'))
+        face = _frac_of_const(c.args[1])
+        val = _frac_of_const(s.value)
+        rtol = _frac_of_const(kw['rtol']) if 'rtol' in kw else _te('rotate: rounding without rtol (numpy default 1e-5)')
+        if _u(kw.get('atol', ast.Constant(None))) != 'atol':
+            _te('rotate: rounding atol')
+        if face.denominator != 1 or val.denominator != 1 or rtol.denominator != 1:
+            _te('rotate: rounding constants')
+        rounds.append((int(face), int(val), int(rtol)))
+    out.append('/-- the two rounding statements of one rung in source order:\n'
+               '    `spos[np.isclose(spos, face, rtol=…, atol=atol)] = value`. -/')
+    out.append('def genRoundFaces (atol s : K) : K :=\n'
+               f'  let s1 := if closeK {rounds[0][2]} atol s {rounds[0][0]} then {rounds[0][1]} else s\n'
+               f'  if closeK {rounds[1][2]} atol s1 {rounds[1][0]} then {rounds[1][1]} else s1')
+    w = lb[3]
+    if not (isinstance(w, ast.Assign) and _u(w.targets[0]) == 'aindex' and _is_call(w.value, 'np.where', 1)):
+        _te('rotate: inside test')
+
+    def flat(n):
+        if isinstance(n, ast.BinOp) and isinstance(n.op, ast.BitAnd):
+            return flat(n.left) + flat(n.right)
+        return [n]
+    exS = _Ex({'spos[:, 0]': ('s.x', 'K'), 'spos[:, 1]': ('s.y', 'K'), 'spos[:, 2]': ('s.z', 'K')})
+
+    class _ExS(_Ex):
+        def lit(self, v):
+            if float(v) not in (0.0, 1.0):
+                _te(f'inside test constant {v}')
+            return str(int(v)), 'K'
+    exS = _ExS(exS.env)
+    terms = [f'decide ({exS.cond(c)})' for c in flat(w.value.args[0])]
+    out.append('/-- the inside test of `np.where(…)`, term by term. -/\ndef genInside (s : V3 K) : Bool :=\n  ' + ' && '.join(terms))
+    ct = lb[4]
+    if not (isinstance(ct, ast.If) and _u(ct.test) == 'len(aindex[0]) == newnatoms'
+            and [_u(s) for s in ct.body] == ['search_success = True', 'break'] and not ct.orelse):
+        _te('rotate: count test')
+    fail = g[24]
+    if not (isinstance(fail, ast.If) and _u(fail.test) == 'not search_success' and len(fail.body) == 1 and not fail.orelse):
+        _te('rotate: ladder refusal')
+    out.append(f'def genLadderError : String := "{_raised(fail.body[0])}"')
+    out.append('end')
+    pins['rotate_tail'] = _pin_hash(g[25:] + st[7:])
+    if len(g) != 26 or len(st) != 8:
+        _te('rotate: tail')
+    # --- miller.vector4to3
+    v43 = _stmts(_find_fn(mtree, 'vector4to3'))
+    t43 = [_u(s) for s in v43]
+    if t43[0] != 'indices = np.asarray(indices)' or not t43[1].startswith('if indices.shape[-1] != 4:') or \
+            not isinstance(v43[2], ast.If) or _u(v43[2].test) != 'not np.allclose(indices[..., :3].sum(axis=-1), 0.0)' or \
+            t43[3] != 'newindices = np.empty(indices.shape[:-1] + (3,))' or t43[-1] != 'return newindices' or len(v43) != 8:
+        _te('miller.vector4to3 shape')
+    ex4 = _Ex({'indices[..., 0]': ('u', 'K'), 'indices[..., 1]': ('v', 'K'), 'indices[..., 2]': ('t', 'K'),
+               'indices[..., 3]': ('w', 'K')})
+    comps = []
+    for k in range(3):
+        s = v43[4 + k]
+        if not (isinstance(s, ast.Assign) and _u(s.targets[0]) == f'newindices[..., {k}]'):
+            _te('miller.vector4to3 component')
+        comps.append(ex4.tr(s.value)[0])
+    out.append('/-- `miller.vector4to3` on one row `[u v t w]` (after its `u + v + t ≈ 0` test). -/\n'
+               'def genHex4to3 {K : Type} [Add K] [Mul K] [IntCast K] (u v t w : K) : V3 K :=\n  ⟨' + ', '.join(comps) + '⟩')
+    out.append(f'def genHexSumError : String := "{_raised(v43[2].body[0])}"')
+
+
+_FAMILIES = ['cubic', 'hexagonal', 'tetragonal', 'rhombohedral', 'orthorhombic', 'monoclinic', 'triclinic']
+
+
+def _tr_box(btree, out):
+    import ast
+    field = {'self.a': 'p.a', 'self.b': 'p.b', 'self.c': 'p.c', 'self.alpha': 'p.al', 'self.beta': 'p.be', 'self.gamma': 'p.ga'}
+    out.append('section\nvariable {K : Type}')
+    for fam in _FAMILIES:
+        fn = _find_fn(btree, 'is' + fam, 'Box')
+        if [a.arg for a in fn.args.args] != ['self', 'rtol', 'atol']:
+            _te(f'Box.is{fam} signature')
+        st = _stmts(fn)
+        if len(st) != 1 or not isinstance(st[0], ast.Return) or not isinstance(st[0].value, ast.BoolOp) or \
+                not isinstance(st[0].value.op, ast.And):
+            _te(f'Box.is{fam}: a single `return … and …` expected')
+        terms = []
+        for v in st[0].value.values:
+            neg = isinstance(v, ast.UnaryOp) and isinstance(v.op, ast.Not)
+            c = v.operand if neg else v
+            if not _is_call(c, 'np.isclose', 2):
+                _te(f'Box.is{fam}: term {_u(v)}')
+            kw = _kw(c, ('rtol', 'atol'))
+            if _u(kw.get('rtol', ast.Constant(None))) != 'rtol' or _u(kw.get('atol', ast.Constant(None))) != 'atol':
+                _te(f'Box.is{fam}: the caller\'s rtol / atol are not handed on in {_u(c)}')
+            a = field.get(_u(c.args[0])) or _te(f'Box.is{fam}: first argument {_u(c.args[0])}')
+            b = field.get(_u(c.args[1]))
+            if b is None:
+                f = _frac_of_const(c.args[1])
+                b = {90: 'n90', 120: 'n120'}.get(f) or _te(f'Box.is{fam}: constant {_u(c.args[1])}')
+            terms.append(('!' if neg else '') + f'cl {a} {b}')
+        out.append(f'/-- `Box.is{fam}` (`cl` = `np.isclose(·, ·, atol=atol, rtol=rtol)`). -/\n'
+                   f'def genIs{fam.capitalize()} (cl : K → K → Bool) (n90 n120 : K) (p : Cell6 K) : Bool :=\n  ' + ' && '.join(terms))
+    fn = _find_fn(btree, 'identifyfamily', 'Box')
+    st = _stmts(fn)
+    if len(st) != 1 or not isinstance(st[0], ast.If):
+        _te('Box.identifyfamily: one if-chain expected')
+    chain = []
+    node = st[0]
+    while True:
+        t = node.test
+        if not (isinstance(t, ast.Call) and isinstance(t.func, ast.Attribute) and _u(t.func.value) == 'self'
+                and t.func.attr.startswith('is') and not t.args):
+            _te('Box.identifyfamily: test ' + _u(t))
+        kw = _kw(t, ('rtol', 'atol'))
+        if _u(kw.get('rtol', ast.Constant(None))) != 'rtol' or _u(kw.get('atol', ast.Constant(None))) != 'atol':
+            _te('Box.identifyfamily: tolerances not handed on in ' + _u(t))
+        fam = t.func.attr[2:]
+        if fam not in _FAMILIES or len(node.body) != 1 or not isinstance(node.body[0], ast.Return) or \
+                not isinstance(node.body[0].value, ast.Constant):
+            _te('Box.identifyfamily: branch ' + _u(node.body[0]))
+        ret = node.body[0].value.value
+        if ret not in _FAMILIES:
+            _te(f'Box.identifyfamily: returns {ret!r}')
+        chain.append((fam, ret))
+        if len(node.orelse) == 1 and isinstance(node.orelse[0], ast.If):
+            node = node.orelse[0]
+            continue
+        if [_u(s) for s in node.orelse] not in ([], ['None'], ['return None']):
+            _te('Box.identifyfamily: else branch')
+        break
+    txt = ''.join(f'  {"if" if k == 0 else "else if"} genIs{f.capitalize()} cl n90 n120 p then some .{r}\n'
+                  for k, (f, r) in enumerate(chain))
+    out.append('/-- `Box.identifyfamily`: the chain in source order. -/\n'
+               'def genIdentifyFamily (cl : K → K → Bool) (n90 n120 : K) (p : Cell6 K) : Option Family :=\n' + txt + '  else none')
+    out.append('end')
+
+
+_SETTINGS = ['p', 'i', 'f', 'a', 'b', 'c', 't1', 't2']
+
+
+def _matrix_literal(node):
+    """np.array([[…],[…],…]) optionally `/ 3.` -> list of rows of Fractions."""
+    import ast
+    div = Fraction(1)
+    if isinstance(node, ast.BinOp) and isinstance(node.op, ast.Div):
+        div = _frac_of_const(node.right)
+        node = node.left
+    if not (_is_call(node, 'np.array', 1) and isinstance(node.args[0], ast.List) and not node.keywords):
+        _te('matrix literal ' + _u(node)[:60])
+    rows = []
+    for r in node.args[0].elts:
+        if not (isinstance(r, ast.List) and len(r.elts) == 3):
+            _te('matrix literal row')
+        rows.append([_frac_of_const(e) / div for e in r.elts])
+    return rows
+
+
+def _den_rows(rows):
+    den = 1
+    for r in rows:
+        for f in r:
+            den = den * f.denominator // math.gcd(den, f.denominator)
+    return den, [[int(f * den) for f in r] for r in rows]
+
+
+def _v3i(r):
+    return '⟨' + ', '.join(str(x) for x in r) + '⟩'
+
+
+def _tr_conversions(ctree, ptree, mtree, out, pins):
+    import ast
+    # --- miller tables
+    tabs = {}
+    for fname in ('vector_primitive_to_conventional', 'vector_conventional_to_primitive'):
+        fn = _find_fn(mtree, fname)
+        if [a.arg for a in fn.args.args] != ['indices', 'setting'] or [_u(d) for d in fn.args.defaults] != ["'p'"]:
+            _te(fname + ' signature')
+        st = _stmts(fn)
+        tab = {}
+        seen_ret = False
+        for s in st:
+            if isinstance(s, ast.Assign) and isinstance(s.targets[0], ast.Subscript) and _u(s.targets[0].value) == 'lattice_vectors':
+                tab[ast.literal_eval(s.targets[0].slice)] = _matrix_literal(s.value)
+            elif isinstance(s, ast.Return):
+                if _u(s) != 'return indices.dot(lat)':
+                    _te(fname + ': ' + _u(s))
+                seen_ret = True
+            elif isinstance(s, ast.Try):
+                if [_u(x) for x in s.body] != ['lat = lattice_vectors[setting]'] or len(s.handlers) != 1 or \
+                        _raised(s.handlers[0].body[0]) != 'value':
+                    _te(fname + ': table lookup')
+            elif _u(s) in ('indices = np.asarray(indices)', 'lattice_vectors = {}') or \
+                    (isinstance(s, ast.If) and _u(s.test) == 'indices.shape[-1] != 3'):
+                pass
+            else:
+                _te(fname + ': statement ' + _u(s)[:60])
+        if not seen_ret or list(tab) != ['p', 'a', 'b', 'c', 'i', 'f', 't1', 't2']:
+            _te(fname + ': settings ' + str(list(tab)))
+        tabs[fname] = tab
+    lines = []
+    for sname, rows in tabs['vector_primitive_to_conventional'].items():
+        den, ints = _den_rows(rows)
+        lines.append(f'  | "{sname}" => some ({den}, ⟨{_v3i(ints[0])}, {_v3i(ints[1])}, {_v3i(ints[2])}⟩)')
+    out.append('/-- `lattice_vectors` of `miller.vector_primitive_to_conventional` (least common denominator, numerators). -/\n'
+               'def genP2CTable : String → Option (Int × M3 Int)\n' + '\n'.join(lines) + '\n  | _ => none')
+    lines = []
+    for sname, rows in tabs['vector_conventional_to_primitive'].items():
+        den, ints = _den_rows(rows)
+        if den != 1:
+            _te('vector_conventional_to_primitive: non-integer table ' + sname)
+        lines.append(f'  | "{sname}" => some ⟨{_v3i(ints[0])}, {_v3i(ints[1])}, {_v3i(ints[2])}⟩')
+    out.append('/-- `lattice_vectors` of `miller.vector_conventional_to_primitive`. -/\n'
+               'def genC2PTable : String → Option (M3 Int)\n' + '\n'.join(lines) + '\n  | _ => none')
+    # --- check_setting_basis
+    fn = _find_fn(ctree, 'check_setting_basis')
+    defaults = dict(zip([a.arg for a in fn.args.args][-len(fn.args.defaults):], fn.args.defaults))
+    if [a.arg for a in fn.args.args] != ['ucell', 'setting', 'rtol', 'atol', 'check_family']:
+        _te('check_setting_basis signature')
+    csb_defaults = defaults
+    st = _stmts(fn)
+    if _u(st[0]) != 'family = ucell.box.identifyfamily(rtol=rtol, atol=atol)':
+        _te('check_setting_basis: family = … ' + _u(st[0]))
+    node = st[1]
+    sites, fams = [], []
+    while True:
+        if not (isinstance(node, ast.If) and isinstance(node.test, ast.Compare) and _u(node.test.left) == 'setting'
+                and isinstance(node.test.ops[0], ast.Eq) and len(node.body) == 2):
+            _te('check_setting_basis: setting chain')
+        sname = ast.literal_eval(node.test.comparators[0])
+        a, b = node.body
+        if not (isinstance(a, ast.Assign) and _u(a.targets[0]) == 'relpos' and isinstance(b, ast.Assign)
+                and _u(b.targets[0]) == 'families'):
+            _te('check_setting_basis: branch of ' + sname)
+        den, ints = _den_rows(_matrix_literal(a.value))
+        fl = ast.literal_eval(b.value)
+        if any(f not in _FAMILIES for f in fl):
+            _te('check_setting_basis: family names ' + str(fl))
+        sites.append(f'  | "{sname}" => some ({den}, [' + ', '.join(_v3i(r) for r in ints) + '])')
+        fams.append(f'  | "{sname}" => some [' + ', '.join('.' + f for f in fl) + ']')
+        if len(node.orelse) == 1 and isinstance(node.orelse[0], ast.If):
+            node = node.orelse[0]
+            continue
+        if len(node.orelse) != 1 or _raised(node.orelse[0]) != 'value':
+            _te('check_setting_basis: unknown setting')
+        break
+    out.append('/-- lattice sites per setting (`relpos`: denominator, numerators) in `check_setting_basis`. -/\n'
+               'def genSettingSitesInt : String → Option (Int × List (V3 Int))\n' + '\n'.join(sites) + '\n  | _ => none')
+    out.append('/-- `families` per setting in `check_setting_basis`. -/\n'
+               'def genSettingFamilies : String → Option (List Family)\n' + '\n'.join(fams) + '\n  | _ => none')
+    gate = st[2]
+    if not (isinstance(gate, ast.If) and _u(gate.test) == 'check_family and family not in families'
+            and [_u(s) for s in gate.body] == ['return False'] and not gate.orelse):
+        _te('check_setting_basis: family gate ' + _u(gate.test))
+    out.append('/-- `if check_family and family not in families: return False` (before the site loop). -/\n'
+               'def genFamilyGate (checkFamily allowed : Bool) : Bool := checkFamily && !allowed')
+    pins['check_setting_basis_site_loop'] = _pin_hash(st[3:])
+    pins['index_of_pos'] = _pin_hash(_stmts(_find_fn(ctree, 'index_of_pos')))
+    # --- conventional_to_primitive.dump
+    fn = _find_fn(ctree, 'dump')
+    names = [a.arg for a in fn.args.args]
+    if names != ['system', 'setting', 'smallshift', 'rtol', 'atol', 'check_basis', 'check_family', 'return_transform']:
+        _te('conventional_to_primitive signature ' + str(names))
+    dflt = dict(zip(names[-len(fn.args.defaults):], fn.args.defaults))
+    for k in ('rtol', 'atol', 'check_family', 'setting'):
+        if k in csb_defaults and _u(csb_defaults[k]) != _u(dflt[k]):
+            _te(f'check_setting_basis default of {k} differs from conventional_to_primitive\'s')
+    st = _stmts(fn)
+    ss = st[0]
+    if not (isinstance(ss, ast.If) and _u(ss.test) == 'smallshift is None' and len(ss.body) == 1
+            and _is_call(ss.body[0].value, 'np.array', 1)):
+        _te('conventional_to_primitive: smallshift default')
+    shift = [_frac_of_const(e) for e in ss.body[0].value.args[0].elts]
+    if len(set(shift)) != 1 or len(shift) != 3 or _u(dflt['smallshift']) != 'None':
+        _te('conventional_to_primitive: smallshift default value')
+
+    def nd(f):
+        return f'({f.numerator}, {f.denominator})'
+    out.append('/-- keyword defaults of `conventional_to_primitive`. -/\ndef genC2PDefaults : C2PDefaults :=\n'
+               f'  ⟨{_lean_str(ast.literal_eval(dflt["setting"]))}, {nd(_frac_of_const(dflt["rtol"]))}, '
+               f'{nd(_frac_of_const(dflt["atol"]))}, {nd(shift[0])}, {str(ast.literal_eval(dflt["check_basis"])).lower()}, '
+               f'{str(ast.literal_eval(dflt["check_family"])).lower()}, {str(ast.literal_eval(dflt["return_transform"])).lower()}⟩')
+    # the resolve chain
+    r = st[1]
+    want_kw = [('setting', None), ('rtol', 'rtol'), ('atol', 'atol'), ('check_family', 'check_family')]
+
+    def chk_call(assign, var):
+        if not (isinstance(assign, ast.Assign) and _u(assign.targets[0]) == var
+                and _is_call(assign.value, 'check_setting_basis', 1) and _u(assign.value.args[0]) == 'system'):
+            _te('conventional_to_primitive: call of check_setting_basis for ' + var)
+        kw = _kw(assign.value)
+        return [(k, _u(v)) for k, v in kw.items()]
+    calls = []
+    if not (isinstance(r, ast.If) and _u(r.test) == "check_basis and setting != 't'" and len(r.body) == 2):
+        _te('conventional_to_primitive: explicit-setting branch ' + _u(r.test))
+    calls.append(chk_call(r.body[0], 'is_basis'))
+    nb = r.body[1]
+    if not (isinstance(nb, ast.If) and _u(nb.test) == 'not is_basis' and len(nb.body) == 1 and _raised(nb.body[0]) == 'value'
+            and not nb.orelse):
+        _te('conventional_to_primitive: refusal of a failed explicit setting')
+    if not (len(r.orelse) == 1 and isinstance(r.orelse[0], ast.If) and _u(r.orelse[0].test) == "check_basis and setting == 't'"
+            and not r.orelse[0].orelse and len(r.orelse[0].body) == 3):
+        _te('conventional_to_primitive: t branch')
+    tb = r.orelse[0].body
+    calls.append(chk_call(tb[0], 'is_t1'))
+    calls.append(chk_call(tb[1], 'is_t2'))
+    pick = tb[2]
+    order = []
+    node = pick
+    while True:
+        if not (isinstance(node, ast.If) and isinstance(node.test, ast.Name) and len(node.body) == 1
+                and isinstance(node.body[0], ast.Assign) and _u(node.body[0].targets[0]) == 'setting'):
+            _te('conventional_to_primitive: t pick')
+        order.append((node.test.id, ast.literal_eval(node.body[0].value)))
+        if len(node.orelse) == 1 and isinstance(node.orelse[0], ast.If):
+            node = node.orelse[0]
+            continue
+        if len(node.orelse) != 1 or _raised(node.orelse[0]) != 'value':
+            _te('conventional_to_primitive: t refusal')
+        break
+    if len(order) != 2 or {o[0] for o in order} != {'is_t1', 'is_t2'}:
+        _te('conventional_to_primitive: t pick order')
+    call_setting = {'is_t1': dict(calls[1])['setting'], 'is_t2': dict(calls[2])['setting']}
+    s1 = ast.literal_eval(call_setting[order[0][0]])
+    s2 = ast.literal_eval(call_setting[order[1][0]])
+    out.append('/-- arguments of the three calls of `check_setting_basis` (explicit setting, the two of `\'t\'`): keyword, value. -/\n'
+               'def genResolveCalls : List (List (String × String)) :=\n  [' + ',\n   '.join(
+                   '[' + ', '.join(f'({_lean_str(k)}, {_lean_str(v)})' for k, v in c) + ']' for c in calls) + ']')
+    out.append('/-- the setting `conventional_to_primitive` works with: the if / elif chain in source order\n'
+               '    (`chk s` = `check_setting_basis(system, setting=s, rtol=rtol, atol=atol, check_family=check_family)`,\n'
+               '    outer `none` = it raised, inner `none` = "Multiple overlapping atoms"). -/\n'
+               'def genResolveSetting (chk : String → Option (Option Bool)) (checkBasis : Bool) (setting : String) : Option String :=\n'
+               '  if checkBasis && (setting != "t") then\n'
+               '    match chk setting with\n    | some (some true) => some setting\n    | _ => none\n'
+               '  else if checkBasis && (setting == "t") then\n'
+               f'    match chk {_lean_str(s1)}, chk {_lean_str(s2)} with\n'
+               f'    | some (some a), some (some b) => if a then some {_lean_str(order[0][1])} else if b then some '
+               f'{_lean_str(order[1][1])} else none\n    | _, _ => none\n'
+               '  else some setting')
+    # hmm: the two calls are made in source order is_t1 then is_t2; a raise in the first wins either way (both -> none)
+    mp = st[2]
+    if not (isinstance(mp, ast.If) and isinstance(mp.test, ast.Compare) and isinstance(mp.test.ops[0], ast.In)
+            and _u(mp.test.left) == 'setting' and len(mp.body) == 1 and len(mp.orelse) == 1
+            and _u(mp.body[0].targets[0]) == 'multip' and _u(mp.orelse[0].targets[0]) == 'multip'):
+        _te('conventional_to_primitive: multip')
+    lst = ast.literal_eval(mp.test.comparators[0])
+    out.append('/-- `multip`. -/\ndef genMultip (setting : String) : Nat :=\n  if [' + ', '.join(_lean_str(x) for x in lst)
+               + f'].contains setting then {ast.literal_eval(mp.body[0].value)} else {ast.literal_eval(mp.orelse[0].value)}')
+    if _u(st[3]) != 'cps_uvws = miller.vector_primitive_to_conventional(multip * np.identity(3), setting=setting)' or \
+            _u(st[4]) != 'p_scell, transform = system.rotate(cps_uvws, return_transform=True)' or \
+            _u(st[5]) != 'box = Box(vects=p_scell.box.vects / multip)':
+        _te('conventional_to_primitive: supercell ' + ' | '.join(_u(s) for s in st[3:6]))
+    pins['c2p_cut'] = _pin_hash(st[6:])
+    # --- primitive_to_conventional.dump
+    fn = _find_fn(ptree, 'dump')
+    if [a.arg for a in fn.args.args] != ['system', 'setting', 'return_transform'] or \
+            [_u(d) for d in fn.args.defaults] != ["'p'", 'False']:
+        _te('primitive_to_conventional signature')
+    st = _stmts(fn)
+    if _u(st[0]) != 'p2c_uvws = miller.vector_conventional_to_primitive(np.identity(3), setting=setting)' or \
+            _u(st[1]) != 'c_ucell, transform = system.rotate(p2c_uvws, return_transform=True)':
+        _te('primitive_to_conventional: ' + ' | '.join(_u(s) for s in st[:2]))
+    pins['p2c_body'] = _pin_hash(st[2:])
+
+
+def translate():
+    import ast
+    stree = ast.parse(cm.source('atomman/core/System.py'))
+    btree = ast.parse(cm.source('atomman/core/Box.py'))
+    mtree = ast.parse(cm.source('atomman/tools/miller.py'))
+    ctree = ast.parse(cm.source('atomman/dump/conventional_to_primitive/dump.py'))
+    ptree = ast.parse(cm.source('atomman/dump/primitive_to_conventional/dump.py'))
+    out = ['/- GENERATED by harness/props/c04.py from atomman/core/System.py (supersize, rotate), atomman/core/Box.py (family '
+           'predicates),\n   atomman/tools/miller.py, atomman/dump/conventional_to_primitive/dump.py, '
+           'atomman/dump/primitive_to_conventional/dump.py — do not edit.\n'
+           '   `Proofs/C04_Source.lean` proves each definition equal to the hand model of `Atomman/C04.lean` (`gen_…_eq_model`). -/',
+           'import Atomman.C04', 'set_option linter.unusedVariables false', 'namespace Atomman.C04.Gen', 'open Atomman Atomman.C04', '']
+    pins = {}
+    _tr_supersize(stree, out, pins)
+    _tr_rotate(stree, mtree, out, pins)
+    _tr_box(btree, out)
+    _tr_conversions(ctree, ptree, mtree, out, pins)
+    out.append('/-- normalised-AST statement pins (numpy array bookkeeping without a Lean counterpart; see docs/C04.md). -/\n'
+               'def genPins : List (String × String) :=\n  [' + ',\n   '.join(
+                   f'({_lean_str(k)}, {_lean_str(pins[k])})' for k in sorted(pins)) + ']')
+    out.append('end Atomman.C04.Gen')
+    return {'SupercellSource': '\n\n'.join(out) + '\n'}
 
 
 # ----------------------------------------------------------------------------------------------
